@@ -185,7 +185,21 @@ func Digits() *rapid.Generator[int] {
 // MutateCode derives a wrong (or accidentally right) string from a code.
 func MutateCode(t *rapid.T, code string) string {
 	b := []byte(code)
-	switch rapid.IntRange(0, 16).Draw(t, "mutKind") {
+	switch rapid.IntRange(0, 17).Draw(t, "mutKind") {
+	case 17: // same BYTE length, but 2..4 bytes are one multi-byte character whose code point ends in the byte it starts at
+		// (U+0130 for '0', U+1037 for '7'): a comparison that walks characters instead of bytes, or narrows a rune to a
+		// byte, sees the right value there and never looks at the positions the character covers
+		l := rapid.IntRange(2, 4).Draw(t, "mutRuneLen")
+		if len(b) >= l {
+			i := rapid.IntRange(0, len(b)-l).Draw(t, "mutRuneAt")
+			base := map[int]rune{2: 0x100, 3: 0x1000, 4: 0x10000}[l]
+			r := base + rune(b[i])
+			if l == 2 && rapid.Bool().Draw(t, "mutRuneHi") {
+				r = 0x700 + rune(b[i])
+			}
+			return string(b[:i]) + string(r) + string(b[i+l:])
+		}
+		return code + "\u0130"
 	case 16: // the code followed by 256, 512, 768 or 65536 more bytes: a length compared after narrowing to 8 or 16 bits is "right"
 		n := rapid.SampledFrom([]int{256, 512, 768, 65536, 256, 512}).Draw(t, "mutLenAlias")
 		fill := rapid.SampledFrom([]string{"0", "7", " ", "x", "\x00"}).Draw(t, "mutLenFill")
